@@ -173,7 +173,7 @@ fn sorter_program(t: usize, init: usize, realloc: bool, maxc: usize, chunk: Cfg,
             .block_size(chunk.block_size)
             .index_levels(chunk.levels)
             .index_key_interval(std::num::NonZeroUsize::new(chunk.interval).unwrap());
-        let mut sorter = b.chunk_creator(LogCreator { next: RefCell::new(0), log: pending.clone() }).build();
+        let mut sorter = b.chunk_creator(LogCreator { next: RefCell::new(0), log: pending.clone(), capture: None }).build();
         for (k, v) in &inserts {
             if c.call("sorter.insert", || sorter.insert(k, v).map_err(|e| class(&e))).is_none() {
                 return;
